@@ -895,6 +895,9 @@ func (g *vcgen) applyFunc(v ssa.Value, fn *ssa.Function, args []string, binds []
 		}
 		return g.freshResults(fn.Signature)
 	}
+	if res, ok := g.inlineCall(fn, args); ok {
+		return res
+	}
 	g.havocEffectsOf(g.callSiteEffects(fn, c), shortName(FullName(fn)))
 	g.noteUncontracted(FullName(fn))
 	return g.freshResults(fn.Signature)
